@@ -581,10 +581,13 @@ def conclude(pid, tier, seed, results, meta, t0):
         else:
             inconclusive.append('%s: failed check without a concrete counterexample: %s' % (h.name, c['desc']))
 
+    printed = set()
     for kid, h, r in known_hits:
         k = kf_by_id.get(kid)
-        if k is not None:
-            log('KNOWN-FINDING: property=%s %s [%s; witness found by %s]' % (pid, k['what'], kid, h.name))
+        if k is not None and kid not in printed:
+            printed.add(kid)
+            who = ', '.join(sorted(set(hh.name for kk, hh, _ in known_hits if kk == kid)))
+            log('KNOWN-FINDING: property=%s %s [%s; witness found by %s]' % (pid, k['what'], kid, who))
     for h, c, path, rep in reported:
         outs = ' | '.join('%s: %s' % (k, '; '.join(x for x in v[1].strip().splitlines() if x.startswith('REPLAY') and 'covered' not in x))
                           for k, v in rep.items())
